@@ -215,6 +215,8 @@ def server_execute(case, stats):
     with_literal = lib_steps != rsteps
 
     def new_transform():
+        if len(out) % 2:  # keyword and positional form of (steps, reverse, build)
+            return lib(c2.HttpDataTransform, list(lib_steps), True, "output", what="HttpDataTransform(steps, True, 'output')")
         return lib(c2.HttpDataTransform, list(lib_steps), reverse=True, build="output", what="HttpDataTransform(reverse)")
 
     state = random.getstate()
